@@ -1891,6 +1891,11 @@ class _gpg_multivalued(_multivalued):
                     args = tuple(argsl)
                 except IndexError:
                     kwargs["sequence"] = lines
+                # The lines are now bytes in the encoding used above (that of
+                # a file opened in text mode, if it declares one): they must be
+                # decoded with that encoding, not with the default one.
+                if len(args) < 4 and 'encoding' not in kwargs:
+                    kwargs['encoding'] = encoding
 
         _multivalued.__init__(self, *args, **kwargs)
 
